@@ -390,7 +390,14 @@ def rids_wire_ids_derive_both(ctx):
     wire_ids_derive_both(ctx, "C03.IDS")
 
 
-RULES = [rids_wire_ids_derive_both, ratomic_ids_reserved_atomically, r1_id_and_wire_agree, r2_key_discipline, r3_insert_before_send, r4_completion_consumes, r5_allocator, r6_batch_slots, r7_ids_not_ordered, r8_http_client_id_check, r9_gone_caller_is_not_a_connection_error, rarr_every_element, rcancel_receive_is_cancel_safe, rkeys_manager_keys_not_derived] + BORROWED
+
+def rsel_shutdown_is_a_select_branch(ctx):
+    """the background tasks notice the other task's end while they wait"""
+    from .common import shutdown_is_a_select_branch
+    shutdown_is_a_select_branch(ctx, "C03.SEL")
+
+
+RULES = [rsel_shutdown_is_a_select_branch, rids_wire_ids_derive_both, ratomic_ids_reserved_atomically, r1_id_and_wire_agree, r2_key_discipline, r3_insert_before_send, r4_completion_consumes, r5_allocator, r6_batch_slots, r7_ids_not_ordered, r8_http_client_id_check, r9_gone_caller_is_not_a_connection_error, rarr_every_element, rcancel_receive_is_cancel_safe, rkeys_manager_keys_not_derived] + BORROWED
 
 LEVEL_TEXT = (
     "Structural necessary conditions of response demultiplexing decided from the type-checked program: the recorded id "
